@@ -18,6 +18,7 @@ TStep ==
     /\ l <= Len(Rec) /\ l' = l + 1
     /\ LET nm == E.name IN
        \/ nm = "reset"  /\ PReset
+       \/ nm = "block"  /\ UNCHANGED pvars
        \/ nm = "begin"  /\ E.s \in Subs /\ ObsBegin(E.s)
        \/ nm = "acct"   /\ ObsAcct(E.q)
        \/ nm = "est"    /\ E.s \in Subs /\ ObsEst(E.s, E.q, E.ans, E.e)
